@@ -131,24 +131,11 @@ theorem prod_eta {α β : Type} (p : α × β) : p = (p.1, p.2) := rfl
 theorem exFile_arg : RootArg exFile.fullPath :=
   { ne := by decide, noSlash := by decide, noStar := by decide, noQ := by decide, len := by decide }
 
-theorem exFile_putArg : PutArg exFile := by
-  have hend : exFile.end = 2 := by decide +kernel
-  refine { noHole := ?_, fits := ?_, eofFits := ?_ }
-  · intro k hk
-    rw [hend] at hk
-    have : k = 0 ∨ k = 1 := by omega
-    rcases this with h | h <;> subst h <;> decide +kernel
-  · intro k hk
-    rw [hend] at hk
-    have : k = 0 ∨ k = 1 := by omega
-    rcases this with h | h <;> subst h <;> decide +kernel
-  · rw [hend]; decide +kernel
-
 /-- the example state satisfies the invariant: it is the result of a `put` on a formatted volume (`put_step_core`) -/
 theorem exDisk_inv : Inv exDisk := by
   have h := prod_eta (runFlush (put exFile exStamp) exDisk0)
   unfold exDisk
-  rcases put_step_core exDisk0_inv exFile_arg exStamp_ok exFile_putArg h with ⟨_, _, h2⟩ | ⟨_, inv', _⟩
+  rcases put_step_core exDisk0_inv exFile_arg exStamp_ok h with ⟨_, _, h2⟩ | ⟨_, inv', _⟩
   · rw [h2]; exact exDisk0_inv
   · exact inv'
 
